@@ -240,7 +240,7 @@ fn vertex_case(c: &TrackSet, ev: &mut Ev) -> Outcome {
 fn run(r: &Run) {
     let t = r.tier;
     r.breadcrumbs.store(true, std::sync::atomic::Ordering::Relaxed);
-    r.prop("pipeline", t.pick(2_500, 60_000), || points_case(400), pipeline);
+    r.prop("pipeline", t.pick(2_500, 60_000), || points_case_turns(400), pipeline);
     r.prop("pipeline_large", t.pick(24, 1_000), || points_case(2000), pipeline);
     r.prop("direct_fits", t.pick(6_000, 300_000), || group(60).prop_map(|mut g| { g.n = g.n.max(13); g }), direct_fit);
     r.prop("track_sets", t.pick(4_000, 200_000), track_set, vertex_case);
